@@ -199,11 +199,18 @@ def check_canonical_nodes(ctx: Check, tree: Tree) -> None:
             if not (isinstance(st, ast.Assign) and isinstance(st.targets[0], ast.Subscript)):
                 continue
             base = st.targets[0].value
+            if isinstance(base, ast.Name):  # a local alias `components = self.__ingredients.components`
+                adefs = [d for d in rd.reaching(base) if d.value is not None]
+                if len(adefs) == 1 and isinstance(adefs[0].value, ast.Attribute):
+                    base = adefs[0].value
             if not (isinstance(base, ast.Attribute) and base.attr in {"components", "amplitudes", "parameter_defaults", "kinematic_variables"}):
                 continue
             n_stores += 1
-            for origin in _direct_origins(tree, fn, rd, st.value, 0):
+            for origin, consumer in _direct_origins(tree, fn, rd, st.value, 0):
                 if isinstance(origin, ast.Call) and any(k.arg == "evaluate" and isinstance(k.value, ast.Constant) and k.value.value is False for k in origin.keywords):
+                    made = unparse(origin.func).split(".")[-1]  # Mul / Add / Pow ...
+                    if consumer is not None and consumer == made:
+                        continue  # Mul(Mul(a, b, evaluate=False), c) flattens: the node does not survive
                     bad += 1
                     ctx.violation("R-CANONICAL", f"{q}::{base.attr}::unevaluated-node", tree.loc(st),
                                   f"{q}: `{unparse(st)[:60]}` stores `{unparse(origin)[:60]}` (evaluate=False) in the model as it is",
@@ -214,19 +221,30 @@ def check_canonical_nodes(ctx: Check, tree: Tree) -> None:
         ctx.ok("R-CANONICAL", "src/ampform/helicity/__init__.py", f"{n_stores} stores into components / amplitudes / parameter_defaults: none stores a node built with evaluate=False as it is")
 
 
-def _direct_origins(tree: Tree, fn: FuncInfo, rd: RD, expr: ast.AST, depth: int) -> list[ast.AST]:
-    """The expressions a value IS (through pure local aliases and one level of repo calls that return
-    it) - not what it was computed from."""
-    if depth > 3:
+_CONSUMER = {ast.Add: "Add", ast.Sub: "Add", ast.Mult: "Mul", ast.Div: "Mul"}
+
+
+def _direct_origins(tree: Tree, fn: FuncInfo, rd: RD, expr: ast.AST, depth: int, consumer: str | None = None) -> list[tuple[ast.AST, str | None]]:
+    """The nodes that SURVIVE in a value, each with the operation that consumes it directly (None: it is
+    the value itself): through pure local aliases, repo calls that return it, and arithmetic.  SymPy
+    flattens an unevaluated Mul only when a Mul consumes it (an unevaluated Add only inside an Add); as
+    a term of a sum (`0 + x`, `acc.get(k, 0) + x`, `sum([x])`) or a factor of a product of the other
+    kind the node stays in the tree as it is."""
+    if depth > 4:
         return []
     if isinstance(expr, ast.Name):
         out = []
         for d in rd.reaching(expr):
             if d.kind in {"assign", "aug"} and isinstance(d.value, ast.AST):
                 if d.kind == "aug":
-                    continue  # x *= y re-canonicalises
-                out += _direct_origins(tree, fn, rd, d.value, depth + 1)
+                    op = _CONSUMER.get(type(d.node.op)) if isinstance(d.node, ast.AugAssign) else None
+                    out += _direct_origins(tree, fn, rd, d.value, depth + 1, op)
+                    continue
+                out += _direct_origins(tree, fn, rd, d.value, depth + 1, consumer)
         return out
+    if isinstance(expr, ast.BinOp) and type(expr.op) in _CONSUMER:
+        op = _CONSUMER[type(expr.op)]
+        return _direct_origins(tree, fn, rd, expr.left, depth + 1, op) + _direct_origins(tree, fn, rd, expr.right, depth + 1, op)
     if isinstance(expr, ast.Call):
         callee = tree.callee(expr, fn)
         tgt = tree.funcs.get(callee) if callee else None
@@ -234,12 +252,12 @@ def _direct_origins(tree: Tree, fn: FuncInfo, rd: RD, expr: ast.AST, depth: int)
             trd = RD(tgt.node)
             out = []
             for ret in [r for r in walk_function(tgt.node, nested=False) if isinstance(r, ast.Return) and r.value is not None]:
-                out += _direct_origins(tree, tgt, trd, ret.value, depth + 1)
+                out += _direct_origins(tree, tgt, trd, ret.value, depth + 1, consumer)
             return out
-        return [expr]
+        return [(expr, consumer)]
     if isinstance(expr, ast.IfExp):
-        return _direct_origins(tree, fn, rd, expr.body, depth + 1) + _direct_origins(tree, fn, rd, expr.orelse, depth + 1)
-    return [expr]
+        return _direct_origins(tree, fn, rd, expr.body, depth + 1, consumer) + _direct_origins(tree, fn, rd, expr.orelse, depth + 1, consumer)
+    return [(expr, consumer)]
 
 
 def check_reentrant_new(ctx: Check, tree: Tree) -> None:
